@@ -1,5 +1,5 @@
 """C03 — demodulator tracking: in steady reception no frame is lost or corrupted."""
-from lib import core, demodlib, m17spec as S
+from lib import core, demodlib, decgen, m17spec as S
 from lib.prop import Prop
 
 
@@ -185,10 +185,56 @@ class C03(Prop):
                              "broken": "trace inclusion M17.Demod.follow (theorems M17.C03.run_finv / steady_next_symbol no longer speak about this code)"},
                             concrete=False)
 
+    def mode_traces(self, ctx, demod, mod, n):
+        """trace inclusion in the other receive modes: packet superframes (raw and encapsulated) and BERT transmissions, built by the
+        specification encoder and shaped by m17-mod's own filter; clean, with one sync word blanked, and with a long run of sync words
+        blanked (coasting, then give-up) - the skeleton's do_packet_sync / do_bert_sync transitions against the real ones"""
+        rng = ctx.rng
+        g = decgen.Gen(rng)
+        for trial in range(n):
+            kind = ("pkt_raw", "pkt_enc", "bert")[trial % 3]
+            nfr = rng.randrange(8, 24)
+            if kind == "bert":
+                s, _ = demodlib.bert_transmission(ctx, mod, nfr, start=rng.randrange(1, 512))
+            else:
+                s, _ = demodlib.packet_transmission(ctx, mod, rng, g.rand_lsf(0x0002 if kind == "pkt_raw" else 0x0004), nfr)
+            s2 = list(s)
+            variant = (trial // 3) % 3
+            first = 3 if kind != "bert" else 2            # index of the first payload frame in 1920-sample units (2 preambles, LSF)
+            if variant:
+                ks = [rng.randrange(2, nfr)] if variant == 1 else range(rng.randrange(2, 6), nfr)
+                for k in ks:
+                    b = (first + k) * 1920 + 70
+                    for j in range(b - 80, min(len(s2), b + 30)):
+                        s2[j] = 0
+            p = {"gain": rng.choice([500, 1000, 2000]), "dc": rng.randrange(-100, 100), "sigma": rng.choice([0, 0, 50]), "delay": rng.randrange(1000),
+                 "ppm": rng.randrange(-50, 50), "lead": 0, "leadn": 0, "level": 0, "seed": rng.randrange(10 ** 6), "app": 2}
+            if trial < 3:
+                p.update(gain=1000, dc=0, sigma=0, delay=0, ppm=0)
+            ln, rep, rc, err = demodlib.run_rx(ctx, demod, p, s2)
+            ctx.count(("mode-trace", kind, variant, tuple(sorted(p.items()))), nontrivial=True)
+            if rc != 0 or not rep.startswith("demod_trace"):
+                ctx.violate(f"trace:abort:{core.first_frame(err)}", f"demodulator aborted while tracing a {kind} transmission: {core.first_err_line(err)}",
+                            {"stream": "trace", "params": p, "ops_file": demodlib.save_ops([ln]), "stderr": err[-2000:]})
+                continue
+            # which states did the real demodulator visit? (6 = PACKET_SYNC, 7 = BERT_SYNC in DemodState order is not assumed: count distinct)
+            out = ctx.run_model([rep])[0]
+            f = out.split()
+            if f[0] == "ok":
+                ctx.traces += 1
+                ctx.stat(f"trace:{kind}:transitions-explained", int(f[1]))
+                ctx.stat(f"trace:{kind}:frames", int(f[2]))
+            else:
+                ctx.violate("trace:tie", f"an observed transition of the demodulator ({kind} transmission) is not a transition of the control skeleton: {out[:600]}",
+                            {"stream": "trace", "params": p, "ops_file": demodlib.save_ops([ln]), "model_reply": out[:3000],
+                             "broken": "trace inclusion M17.Demod.follow (theorems M17.C03.run_finv / coasting_bounded no longer speak about this code)"},
+                            concrete=False)
+
     def run(self, ctx):
         demod, mod = demodlib.drivers()
         quick = ctx.tier == "quick"
         self.traces(ctx, demod, mod, 8 if quick else 60)
+        self.mode_traces(ctx, demod, mod, 9 if quick else 45)
         self.dual_stage(ctx, demod, mod, 8 if quick else 60)
         self.explore(ctx, demod, mod, 10 if quick else 150, [20, 40, 60, 120] if quick else [20, 40, 60, 120, 300], stress=2 if quick else 20)
 
